@@ -84,6 +84,242 @@ impl<MutexType: RawMutex, T> Deref for GenericMutexGuard<'_, MutexType, T> {''',
      'new': '''        if self.state.lock().try_lock_sync() || !self.state.lock().is_locked() {
             Some(GenericMutexGuard { mutex: self })''',
      'expect': {'C02': ['C02.R1']}},
+    # ---------------------------------------------------------------- C03
+    {'name': 'mutex-future-drop-discards-waker', 'file': 'src/sync/mutex.rs',
+     'old': '''            let mut mutex_state = mutex.state.lock();
+            mutex_state.remove_waiter(&mut self.wait_node)
+        } else {
+            None
+        };''',
+     'new': '''            let mut mutex_state = mutex.state.lock();
+            let _ = mutex_state.remove_waiter(&mut self.wait_node);
+            None::<Waker>
+        } else {
+            None
+        };''',
+     'expect': {'C03': ['C03.R4']}},
+    {'name': 'mutex-fair-waiting-no-waker-update', 'file': 'src/sync/mutex.rs',
+     'old': '''                    // passed a different `Waker`. In this case we need to update it.
+                    update_waker_ref(&mut wait_node.task, cx);
+                    Poll::Pending
+                } else {''',
+     'new': '''                    // passed a different `Waker`. In this case we need to update it.
+                    Poll::Pending
+                } else {''',
+     'expect': {'C03': ['C03.R5']}},
+    {'name': 'mutex-notified-drop-no-forward', 'file': 'src/sync/mutex.rs',
+     'old': '''                // another task gets the chance to run.
+                self.return_last_waiter()
+            }''',
+     'new': '''                // another task gets the chance to run.
+                if self.is_locked { self.return_last_waiter() } else { None }
+            }''',
+     'expect': {'C03': ['C03.R2']}},
+    {'name': 'mutex-unlock-returns-none', 'file': 'src/sync/mutex.rs',
+     'old': '''            // Wakeup the last waiter
+            self.return_last_waiter()
+        } else {''',
+     'new': '''            // Wakeup the last waiter
+            if self.is_fair { self.return_last_waiter() } else { None }
+        } else {''',
+     'expect': {'C03': ['C03.R1']}},
+    {'name': 'mutex-return-last-keeps-waker', 'file': 'src/sync/mutex.rs',
+     'old': '''            let task = &mut last_waiter.task;
+            return task.take();''',
+     'new': '''            let task = &mut last_waiter.task;
+            return task.clone();''',
+     'expect': {'C03': ['C03.R1', 'C03.R2']}},
+    {'name': 'update-waker-ref-inverted', 'file': 'src/utils/mod.rs',
+     'old': '''.map_or(true, |stored_waker| !stored_waker.will_wake(cx.waker()))''',
+     'new': '''.map_or(false, |stored_waker| !stored_waker.will_wake(cx.waker()))''',
+     'expect': {'C03': ['C03.R5h']}},
+    {'name': 'mutex-requeue-keeps-old-waker', 'file': 'src/sync/mutex.rs',
+     'old': '''                    debug_assert!(!self.is_fair);
+                    // Add to queue
+                    wait_node.task = Some(cx.waker().clone());''',
+     'new': '''                    debug_assert!(!self.is_fair);
+                    // Add to queue
+                    if wait_node.task.is_none() { wait_node.task = Some(cx.waker().clone()); }''',
+     'expect': {'C03': ['C03.R5']}},
+    # ---------------------------------------------------------------- C04
+    {'name': 'mutex-try-lock-sync-ignores-waiters', 'file': 'src/sync/mutex.rs',
+     'old': '''        if !self.is_locked && (!self.is_fair || self.waiters.is_empty()) {''',
+     'new': '''        if !self.is_locked {''',
+     'expect': {'C04': ['C04.R1']}},
+    {'name': 'mutex-fair-waiting-grabs-free-lock', 'file': 'src/sync/mutex.rs',
+     'old': '''                if self.is_fair {
+                    // The task needs to wait until it gets notified in order to
+                    // maintain the ordering. However the caller might have''',
+     'new': '''                if self.is_fair && self.is_locked {
+                    // The task needs to wait until it gets notified in order to
+                    // maintain the ordering. However the caller might have''',
+     'expect': {'C04': ['C04.R1']}},
+    {'name': 'mutex-notify-newest', 'file': 'src/sync/mutex.rs',
+     'old': '''            self.waiters.remove_last()
+        };''',
+     'new': '''            self.waiters.remove_first()
+        };''',
+     'expect': {'C04': ['C04.R2'], 'C03': ['C03.R1']}},
+    {'name': 'mutex-fair-notify-unlinks', 'file': 'src/sync/mutex.rs',
+     'old': '''        let last_waiter = if self.is_fair {
+            self.waiters.peek_last_mut()''',
+     'new': '''        let last_waiter = if self.is_fair && self.is_locked {
+            self.waiters.peek_last_mut()''',
+     'expect': {'C04': ['C04.R3']}},
+    # ---------------------------------------------------------------- C05
+    {'name': 'sem-waiting-subtracts-unguarded', 'file': 'src/sync/semaphore.rs',
+     'old': '''                    if self.permits >= wait_node.required_permits {
+                        self.permits -= wait_node.required_permits;
+                        wait_node.state = PollState::Done;''',
+     'new': '''                    if self.permits >= 1 {
+                        self.permits -= wait_node.required_permits;
+                        wait_node.state = PollState::Done;''',
+     'expect': {'C05': ['C05.R1']}},
+    {'name': 'sem-try-acquire-releaser-off-by-one', 'file': 'src/sync/semaphore.rs',
+     'old': '''            Some(GenericSemaphoreReleaser {
+                semaphore: self,
+                permits: nr_permits,
+            })''',
+     'new': '''            Some(GenericSemaphoreReleaser {
+                semaphore: self,
+                permits: nr_permits + 1,
+            })''',
+     'expect': {'C05': ['C05.R4']}},
+    {'name': 'sem-release-early-return', 'file': 'src/sync/semaphore.rs',
+     'old': '''        if permits == 0 {
+            return;
+        }
+        // TODO: Overflow check''',
+     'new': '''        if permits == 0 || (self.is_fair && self.waiters.is_empty() && permits == 1) {
+            return;
+        }
+        // TODO: Overflow check''',
+     'expect': {'C05': ['C05.R5', 'C05.R2']}},
+    {'name': 'sem-disarm-not-zeroing', 'file': 'src/sync/semaphore.rs',
+     'old': '''        let permits = self.permits;
+        self.permits = 0;
+        permits
+    }
+}
+
+impl<MutexType: RawMutex> Drop for GenericSemaphoreReleaser''',
+     'new': '''        let permits = self.permits;
+        permits
+    }
+}
+
+impl<MutexType: RawMutex> Drop for GenericSemaphoreReleaser''',
+     'expect': {'C05': ['C05.R5']}},
+    {'name': 'sem-notified-double-subtract', 'file': 'src/sync/semaphore.rs',
+     'old': '''                    self.permits -= wait_node.required_permits;
+                    if self.is_fair {
+                        // There might be another task which is ready to run,''',
+     'new': '''                    self.permits -= wait_node.required_permits;
+                    if self.is_fair && self.permits >= wait_node.required_permits && self.waiters.is_empty() {
+                        self.permits -= wait_node.required_permits;
+                    }
+                    if self.is_fair {
+                        // There might be another task which is ready to run,''',
+     'expect': {'C05': ['C05.R3']}},
+    # ---------------------------------------------------------------- C06
+    {'name': 'revert-fix-D1a', 'file': 'src/sync/semaphore.rs', 'passes_suite': True,
+     'old': '''                // The removed waiter might have been blocking waiters
+                // behind it, which can be served by the available permits.
+                self.wakeup_waiters();
+''', 'new': '',
+     'expect': {'C06': ['C06.R3']}},
+    {'name': 'revert-fix-D1b', 'file': 'src/sync/semaphore.rs', 'passes_suite': True,
+     'old': '''                    // The permits this waiter was notified for are still
+                    // available to waiters which queued up behind it.
+                    self.wakeup_waiters();
+''', 'new': '',
+     'expect': {'C06': ['C06.R4']}},
+    {'name': 'sem-release-without-wakeup', 'file': 'src/sync/semaphore.rs',
+     'old': '''        // Wakeup the last waiter
+        self.wakeup_waiters();
+    }''',
+     'new': '''        // Wakeup the last waiter
+        if self.is_fair { self.wakeup_waiters(); }
+    }''',
+     'expect': {'C06': ['C06.R1']}},
+    {'name': 'sem-notified-drop-no-rewake', 'file': 'src/sync/semaphore.rs',
+     'old': '''                wait_node.state = PollState::Done;
+                // Wakeup more waiters
+                self.wakeup_waiters();''',
+     'new': '''                wait_node.state = PollState::Done;
+                // Wakeup more waiters
+                if !self.is_fair { self.wakeup_waiters(); }''',
+     'expect': {'C06': ['C06.R2']}},
+    {'name': 'sem-fair-grant-no-rewake', 'file': 'src/sync/semaphore.rs',
+     'old': '''                    if self.is_fair {
+                        // There might be another task which is ready to run,
+                        // but couldn't, since it was blocked behind the fair waiter.
+                        self.wakeup_waiters();
+                    }''',
+     'new': '',
+     'expect': {'C06': ['C06.R2']}},
+    {'name': 'sem-wakeup-marks-without-waking', 'file': 'src/sync/semaphore.rs',
+     'old': '''                        if let Some(ref handle) = task {
+                            handle.wake_by_ref();
+                        }''',
+     'new': '''                        if let Some(ref handle) = task {
+                            if self.is_fair { handle.wake_by_ref(); }
+                        }''',
+     'expect': {'C06': ['C06.R5']}},
+    {'name': 'sem-wakeup-ignores-fit', 'file': 'src/sync/semaphore.rs',
+     'old': '''                    if available < last_waiter.required_permits {
+                        return;
+                    }''',
+     'new': '''                    if available < last_waiter.required_permits && !self.is_fair {
+                        return;
+                    }''',
+     'expect': {'C06': ['C06.R5']}},
+    {'name': 'sem-requeue-forgets-waker', 'file': 'src/sync/semaphore.rs',
+     'old': '''                    // Add to queue
+                    wait_node.task = Some(cx.waker().clone());
+                    wait_node.state = PollState::Waiting;
+                    self.waiters.add_front(wait_node);
+                    // The permits''',
+     'new': '''                    // Add to queue
+                    wait_node.state = PollState::Waiting;
+                    self.waiters.add_front(wait_node);
+                    // The permits''',
+     'expect': {'C06': ['C06.R6']}},
+    # ---------------------------------------------------------------- C07
+    {'name': 'sem-try-acquire-sync-ignores-waiters', 'file': 'src/sync/semaphore.rs',
+     'old': '''            && (!self.is_fair
+                || self.waiters.is_empty()
+                || required_permits == 0)''',
+     'new': '''            && (!self.is_fair
+                || true
+                || required_permits == 0)''',
+     'expect': {'C07': ['C07.R1']}},
+    {'name': 'sem-fair-waiting-acquires', 'file': 'src/sync/semaphore.rs',
+     'old': '''                if self.is_fair {
+                    // The task needs to wait until it gets notified in order to
+                    // maintain the ordering.
+                    // However the caller might have passed a different `Waker`.''',
+     'new': '''                if self.is_fair && self.permits < wait_node.required_permits {
+                    // The task needs to wait until it gets notified in order to
+                    // maintain the ordering.
+                    // However the caller might have passed a different `Waker`.''',
+     'expect': {'C07': ['C07.R1']}},
+    {'name': 'sem-wakeup-from-front', 'file': 'src/sync/semaphore.rs',
+     'old': '''            match self.waiters.peek_last_mut() {''',
+     'new': '''            match self.waiters.peek_first_mut() {''',
+     'expect': {'C07': ['C07.R3', 'C07.R4'], 'C06': ['C06.R5']}},
+    {'name': 'sem-no-zero-fast-path', 'file': 'src/sync/semaphore.rs',
+     'old': '''                || self.waiters.is_empty()
+                || required_permits == 0)''',
+     'new': '''                || self.waiters.is_empty())''',
+     'expect': {'C07': ['C07.R2']}},
+    {'name': 'sem-fair-wakes-two', 'file': 'src/sync/semaphore.rs',
+     'old': '''                        // However the we currently can't peek iterate in reverse order.
+                        return;''',
+     'new': '''                        // However the we currently can't peek iterate in reverse order.
+                        if available == 0 { return; }
+                        self.waiters.remove_last();''',
+     'expect': {'C07': ['C07.R4']}},
 ]
 
 BENIGN = []
